@@ -602,6 +602,19 @@ theorem metrics_after_group {c c'' : Dag} {P P'' : Reg → List NodeId} (g : Goo
   obtain ⟨e, P', g', hh', hr', hw'⟩ := groupOneQubitGates_wiredWire g hh
   exact ⟨e, equal_wires_equal_metrics g' g'' hh'.plain hpl'' (hregs.trans hr'.symm) (fun r _ => (hw r).trans (hw' r).symm)⟩
 
+/-- **the wires of the prepared copy** `unwrap_nodes(); remove_identity()` (on which five of the metrics work): on any circuit
+    satisfying DagInv with graphiq-constructed operations both calls succeed and every wire of the copy carries the unwrapped,
+    identity-free sequence of the original wire — operations as wired (instance `[unwrap_nodes, remove_identity]` of
+    `C12.rewrite_history_on_wired_wires`) -/
+theorem prepared_copy_wires {c : Dag} {P : Reg → List NodeId} (g : Good c P) (hh : GroupHyp c) :
+    ∃ c' P', prep c = .ok c' ∧ Good c' P' ∧ c'.regs = c.regs ∧
+      ∀ r, wiredWire c' P' r = ((wiredWire c P r).flatMap Op.unwrap).filter (fun o => !decide (o.kind = .identity)) := by
+  obtain ⟨P', g', _, hr, hw⟩ := C12.rewrite_history_on_wired_wires [.unwrapNodes, .removeIdentity] g hh
+  obtain ⟨L, hS⟩ := sched_exists g
+  obtain ⟨c1, P1, L1, hprep, _, _, _, _, _⟩ := prep_sched_gen g hh.plain hS
+  have hc1 := prep_eq_ok hprep
+  refine ⟨c1, P', hprep, by rw [hc1]; exact g', by rw [hc1]; exact hr, fun r => by rw [hc1]; exact hw r⟩
+
 /-! ### the theorems for `add`-built circuits are the special case "schedule = creation order" -/
 
 /-- a circuit built by `add` has the schedule "nodes in creation order" whose operation list is `seq` itself — so §2–§5 are
@@ -847,6 +860,11 @@ example : Metrics.circuitDepth histCircuit = 6 := by decide
 example : histCircuit.registerDepth.toOption = some ([2, 6], [3], [0]) ∧
     (List.range 2).map (fun i => Spec.regDepth (histSchedule.map (·.2)) ⟨.e, i⟩) = [2, 6] ∧
     Spec.regDepth (histSchedule.map (·.2)) ⟨.c, 0⟩ = 0 ∧ Spec.depth (histSchedule.map (·.2)) = 6 := by decide
+
+/-- the hypothesis "at least one register" of the depth clauses is sharp: on `CircuitDAG(0, 0, 0)` networkx' longest path has 0
+    edges and the code returns `depth = −1`, whereas the longest dependency chain of the (empty) operation list has length 0
+    (the real `CircuitDepth().evaluate` returns −1 there as well; the correspondence harness accepts −1 on the empty graph) -/
+example : Metrics.circuitDepth (Dag.init 0 0 0) = -1 ∧ Spec.depth [] = 0 ∧ (Dag.init 0 0 0).nodeIds = [] := by decide
 
 /-- wire determinacy, non-vacuity: `add(CNOT e0→e1); add(H p0)` and `add(H p0); add(CNOT e0→e1)` are different circuits (the node
     identities are swapped) with the same register counts and the same operation sequence on every wire (kernel-evaluated on the
